@@ -154,7 +154,8 @@ class Stage:
         """Append `#[cfg(<cfg>)] #[path="..."] mod <modname>;` to crates/<crate>/<rel_file>."""
         p = os.path.join(self.ws, "crates", crate, rel_file)
         with open(p, "a") as f:
-            f.write('\n#[cfg(%s)]\n#[path = "%s"]\nmod %s;\n' % (cfg, harness_path, modname))
+            vis, _, name = modname.rpartition(" ")
+            f.write('\n#[cfg(%s)]\n#[path = "%s"]\n%s mod %s;\n' % (cfg, harness_path, vis, name))
         self.injected.append("%s/%s <- %s" % (crate, rel_file, os.path.relpath(harness_path, VERIF)))
 
     def append(self, crate, rel_file, text):
@@ -372,7 +373,8 @@ def load_known_findings():
 
 
 def write_evidence(pid, tier, seed, wall_s, coverage, assumptions, violations, extra=None):
-    os.makedirs(os.path.join(VERIF, "evidence"), exist_ok=True)
+    evdir = os.environ.get("VERIF_EVIDENCE_DIR") or os.path.join(VERIF, "evidence")
+    os.makedirs(evdir, exist_ok=True)
     ev = {
         "property_id": pid, "tier": tier, "seed": seed, "level": "model_checking",
         "coverage": coverage, "assumptions": assumptions, "wall_s": round(wall_s, 1),
@@ -380,7 +382,7 @@ def write_evidence(pid, tier, seed, wall_s, coverage, assumptions, violations, e
     }
     if extra:
         ev.update(extra)
-    p = os.path.join(VERIF, "evidence", pid + ".json")
+    p = os.path.join(evdir, pid + ".json")
     with open(p, "w") as f:
         json.dump(ev, f, indent=1)
         f.write("\n")
